@@ -10,8 +10,8 @@ THEOREMS = ["Parmcb.C10." + t for t in ["c10_strip_newline", "c10_strip_no_newli
 
 def gen_text(r, malformed=False):
     """-> (text, expected) ; expected = ('ok', n, [(u,v,weight_token_or_None)]) or ('error',)"""
-    n = r.randint(1, 9)
-    m = r.randint(0, 12)
+    n = r.choice([r.randint(1, 9), r.randint(1, 9), r.randint(10, 120), r.randint(1000, 5000)])      # also multi-digit vertex ids
+    m = r.choice([r.randint(0, 12), r.randint(0, 12), r.randint(13, 80)])
     lines, edges = [], []
     def comment():
         return r.choice(["c ", "# ", "c", "#"]) + "".join(r.choice("abc p e 12 3.5") for _ in range(r.randint(0, 20)))
